@@ -69,6 +69,12 @@ def gen(rng, tier):
             dtype = 'float64'
         sigma = rng.choice([0.05, 0.12, 0.125, 0.126, 0.13, 0.15, 0.19, 0.2, 0.22, 0.2499, 0.25, 0.26, 0.3, 0.374, 0.375, 0.4,
                             0.62, 0.625, 0.63, 0.9, round(rng.uniform(0.05, 0.7), 4)])
+        if kind == 'rmean' and dtype in ('int64', 'list') and rng.random() < 0.4:
+            xs = [float(val()) for _ in range(nr)]
+            for _k in range(rng.randint(1, 2)):
+                xs[rng.randrange(nr)] = rng.choice([3e17, -1e15, 7e12, 2e9])      # a few entries dwarf the rest
+            yield {'k': kind, 'x': xs, 'w': rng.randint(1, min(nr, 40)), 'which': rng.choice(['filtering', 'utils']), 'dtype': 'float64'}
+            continue
         if kind == 'gauss1':
             yield {'k': kind, 'x': [val() for _ in range(nr)], 'sigma': sigma, 'dtype': dtype}
         elif kind == 'gauss2':
@@ -77,6 +83,13 @@ def gen(rng, tier):
             yield {'k': kind, 'x': [val() for _ in range(nr)], 'w': rng.randint(1, min(nr, 40)), 'which': rng.choice(['filtering', 'utils']), 'dtype': dtype}
     for _ in range(3):
         yield {'k': 'gauss3d', 'x': [[[1.0, 2.0], [3.0, 4.0]], [[5.0, 6.0], [7.0, 8.0]]], 'sigma': 1.0}
+        # more than two dimensions also when some axes have length one
+        shape = rng.choice([(5, 3, 1), (5, 1, 3), (1, 5, 3), (5, 3, 1, 1), (4, 1, 1), (1, 1, 6)])
+        flat = [float(rng.randint(-9, 9)) for _ in range(100)]
+
+        def nest(sh, it):
+            return [nest(sh[1:], it) for _ in range(sh[0])] if len(sh) > 1 else [next(it) for _ in range(sh[0])]
+        yield {'k': 'gauss3d', 'x': nest(shape, iter(flat)), 'sigma': rng.choice([0.5, 1.0, 3.0])}
         yield {'k': 'rmean2d', 'x': [[1.0, 2.0], [3.0, 4.0]], 'w': 1, 'which': 'filtering'}
 
 
@@ -191,8 +204,14 @@ def judge(case, ibc, answers):
             model, spec = ans.Qs(), ans.Qs()
             if model != spec:
                 probs.append({'kind': 'model-vs-spec', 'cfg': '-', 'finding': None, 'what': 'convolution form != documented window'})
+            w = case['w']
+            absx = [abs(Fraction(v)) for v in x]
             for i in range(len(x)):
-                if not C.frac_close(out[i], spec[i], Fraction(1, 10**12) * Fraction(scale)):
+                # the window of entry i (documented centred window, zeros outside): the rounding error of its mean is
+                # bounded relative to the magnitudes INSIDE that window, not to the largest value of the series
+                lo, hi = i - w // 2, i - w // 2 + w
+                local = sum(absx[max(lo, 0):max(min(hi, len(x)), 0)]) / w
+                if not C.frac_close(out[i], spec[i], Fraction(1, 10**12) * max(local, Fraction(1, 10**300))):
                     P('impl-vs-spec', 'window %d, entry %d: %r, mean over the documented window %.12f' % (case['w'], i, out[i], float(spec[i])))
                     break
     return probs
